@@ -10,24 +10,33 @@ for a in sys.argv[1:]:
         also = a[7:].split(',')
 if not ids:
     ids = sorted(d for d in os.listdir(os.path.join(V, 'seeded')) if os.path.isdir(os.path.join(V, 'seeded', d)))
-if subprocess.run(['git', '-C', '/repo', 'diff', '--quiet']).returncode != 0:
+scratch = '--scratch' in sys.argv
+REPO = '/repo'
+env = dict(os.environ)
+if scratch:
+    # work on a throw-away copy of /repo's committed tree so that runs against /repo itself are not disturbed
+    REPO = '/tmp/seedrepo'
+    subprocess.run(['rm', '-rf', REPO])
+    subprocess.check_call('mkdir -p %s && git -C /repo archive HEAD | tar -x -C %s && cd %s && git init -q . && git add -A >/dev/null && git -c user.email=a@b -c user.name=s commit -qm base' % (REPO, REPO, REPO), shell=True)
+    env.update(REPO=REPO, VERIF_OUT='/tmp/seedout', VERIF_EVIDENCE='/tmp/seedout/evidence', VERIF_BUILD='/tmp/seedbuild')
+elif subprocess.run(['git', '-C', '/repo', 'diff', '--quiet']).returncode != 0:
     sys.exit('/repo has uncommitted changes')
 head = subprocess.run(['git', '-C', '/repo', 'rev-parse', '--short', 'HEAD'], stdout=subprocess.PIPE).stdout.decode().strip()
 for sid in ids:
     d = os.path.join(V, 'seeded', sid)
     meta = json.load(open(os.path.join(d, 'meta.json')))
     patch = os.path.join(d, 'patch.diff')
-    if subprocess.run(['git', '-C', '/repo', 'apply', '--check', patch], stderr=subprocess.DEVNULL).returncode != 0:
+    if subprocess.run(['git', '-C', REPO, 'apply', '--check', patch], stderr=subprocess.DEVNULL).returncode != 0:
         print(sid, 'PATCH DOES NOT APPLY')
         meta['applies_to'] = None
         continue
-    subprocess.check_call(['git', '-C', '/repo', 'apply', patch])
+    subprocess.check_call(['git', '-C', REPO, 'apply', patch])
     try:
         checks = [meta['property']] + [c for c in also if c != meta['property']]
         det = []
         for c in checks:
             t0 = time.time()
-            p = subprocess.run(['./check', c, 'quick'], cwd=V, stdout=subprocess.PIPE, stderr=subprocess.STDOUT)
+            p = subprocess.run(['./check', c, 'quick'], cwd=V, stdout=subprocess.PIPE, stderr=subprocess.STDOUT, env=env)
             out = p.stdout.decode(errors='replace')
             keys = re.findall(r'^  key=(\S+)', out, re.M)
             print('%s %s rc=%d %.0fs keys=%s' % (sid, c, p.returncode, time.time() - t0, keys[:4]), flush=True)
@@ -38,5 +47,5 @@ for sid in ids:
         meta['detected_by'] = det
         meta['ran'] = 'git -C /repo apply seeded/%s/patch.diff; ./check <ID> quick; git -C /repo checkout -- .   (on /repo at %s, VERIF_SEED default)' % (sid, head)
     finally:
-        subprocess.check_call(['git', '-C', '/repo', 'checkout', '--', '.'])
+        subprocess.check_call(['git', '-C', REPO, 'checkout', '--', '.'])
     json.dump(meta, open(os.path.join(d, 'meta.json'), 'w'), indent=1)
